@@ -2343,7 +2343,17 @@ impl SctpInner {
 
             {
                 let mut received_queue = self.received_queue.lock();
-                received_queue.retain(|&tsn, _| tsn_gt(tsn, new_cumulative_tsn));
+                let mut released = 0usize;
+                received_queue.retain(|&tsn, (_, chunk)| {
+                    let keep = tsn_gt(tsn, new_cumulative_tsn);
+                    if !keep {
+                        released += chunk.len();
+                    }
+                    keep
+                });
+                if released > 0 {
+                    self.used_rwnd.fetch_sub(released, Ordering::Relaxed);
+                }
             }
 
             // Fragments are TSN-contiguous and processed in TSN order, so a
@@ -2380,6 +2390,24 @@ impl SctpInner {
                     }
                 }
             }
+
+            // Chunks buffered beyond the skipped range may now be in order: deliver
+            // them here, since no further DATA may ever arrive to trigger the drain.
+            loop {
+                let next_tsn = self
+                    .cumulative_tsn_ack
+                    .load(Ordering::Relaxed)
+                    .wrapping_add(1);
+                let entry = self.received_queue.lock().remove(&next_tsn);
+                let Some((p_flags, p_chunk)) = entry else {
+                    break;
+                };
+                let chunk_len = p_chunk.len();
+                self.process_data_payload(p_flags, p_chunk).await?;
+                self.cumulative_tsn_ack.store(next_tsn, Ordering::Relaxed);
+                self.used_rwnd.fetch_sub(chunk_len, Ordering::Relaxed);
+            }
+            self.schedule_sack_immediate();
 
             self.timer_notify.notify_one();
         }
